@@ -105,6 +105,14 @@ Theorem to_wire_spec : forall (n : name) (origin : option name) (canon : bool) (
 Proof. exact NameCompress.to_wire_spec. Qed.
 Print Assumptions to_wire_spec.
 
+(* the third call shape, Name.to_wire(file, None, origin): same octets and the same NameTooLong as
+   the form without a file (so to_wire_spec / to_wire_roundtrip apply to it as well) *)
+Theorem to_wire_file_eq : forall (n : name) (origin : option name) (canon : bool),
+  Valid n -> (forall o, origin = Some o -> Valid o) ->
+  to_wire_file n origin canon = to_wire n origin canon.
+Proof. exact NameCompress.to_wire_file_eq. Qed.
+Print Assumptions to_wire_file_eq.
+
 Theorem to_wire_roundtrip : forall (n : name) (origin : option name) (w pre post : list Z),
   Valid n -> (forall o, origin = Some o -> Valid o) ->
   to_wire n origin false = Ok w ->
